@@ -20,6 +20,7 @@ open RV.C08
 #print axioms min_spec_witness
 #print axioms max_spec_witness
 #print axioms sample_spec
+#print axioms sample_of_group_key
 #print axioms groupconcat_spec
 #print axioms empty_group_values
 #print axioms having_filters_groups
